@@ -180,7 +180,12 @@ fn make_jwk_did() -> (String, String) {
       let y = crate::core::b64::encode(ctx::bytes(32));
       serde_json::json!({"kty":"EC","crv":"P-256","x": x, "y": y})
     }
-    _ => serde_json::json!({"kty":"RSA","n": crate::core::b64::encode(ctx::bytes(64)), "e": "AQAB"}),
+    _ => {
+      // moduli of 512 to 4096 bits (the encoded DID of the largest is well beyond a kilobyte)
+      let mut n = ctx::bytes(64);
+      n.resize([64usize, 256, 384, 512][ctx::choose(4)], 0x5a);
+      serde_json::json!({"kty":"RSA","n": crate::core::b64::encode(n), "e": "AQAB"})
+    }
   };
   // optional members: the expanded document must carry exactly the key encoded in the DID, members included
   if ctx::chance(1, 3) {
